@@ -9,51 +9,81 @@ A_PROTO = "A-PROTO: protobuf (upb) message objects behave as modelled in pyvc/pr
 
 A_OD = "A-OD: collections.OrderedDict as (membership, value, length, recency rank) with the cardinality fact used for LRU stability"
 A_STR = "A-STR: str.rpartition(sep) splits at the last occurrence (head ++ sep ++ tail == s, tail free of sep)"
+A_DQ = "A-DEQUE: collections.deque(iterable, maxlen) of fixed length with indexing"
+A_UL = "A-USERLIST: collections.UserList as an object with a data list"
+A_CTX = "A-CTXVAR: ContextVar.set makes its argument the current value"
 A_SUB = "A-SUBCLASS: only the term / encoder / adapter classes defined in /repo/pyjelly; objects of foreign classes are the opaque `Other` term"
+A_ABS = "A-ABSITER / A-GENDRAIN: input iterables of unknown length deliver items of the declared sort and are not mutated while consumed; a generator consumed through its contract takes effect at the point of consumption"
+A_RDFLIB = "A-RDFLIB: rdflib term classes are read through the generic term datatype (URIRef/BNode identified with their string values, Literal = (str(term), language, datatype)); rdflib's type-strict __eq__, stores, NamespaceManager and plugin loading are outside the contracts"
+A_IO = "A-IO: binary sources (read/seek exact on seekable sources, BufferedReader.peek may return fewer bytes than asked), the upb wire parser (arbitrary frames, enum fields within range: A-IO-ENUM) and file writers are trusted models / outside the contracts"
+A_TQ = "T-QUOTED: Decoder.decode_quoted_triple is a trusted opaque contract (some quoted-triple term or an error)"
 QUOTED = "nested denotation of quoted triples is not carried by the contracts (completeness, entry-row accounting and LRU accounting are); it is covered by the bounded net only"
 ENCODER = COMMON + [A_OD, A_STR, A_SUB, QUOTED]
 
 BOUNDED_MAIN = "this property is currently decided mainly by the bounded net (labelled bounded, not proof); the contract layer covers only the functions listed under functions_under_contract"
 
+TECH_P = 'contract-based deductive verification: VCs generated from the real AST on every run, callers checked against callee contracts, discharged by SMT (z3 5.1.0; cvc5/z3-4.8 second opinion), counter-models replayed natively; bounded net (labelled bounded) underneath'
+TECH_M = 'contract-based deductive verification of the functions listed in the evidence (VCs from the real AST, SMT) plus a bounded net, labelled bounded and never counted as proved, for the part of the statement no contract reaches'
+
 PROPS = {
-    "C02": {"level": "other", "assumptions": COMMON + [BOUNDED_MAIN, "A-RDFLIB: rdflib 7.6.0 term constructors/normalisation, stores and plugin loading are outside the contracts"],
-            "explanation": "bounded: rdflib Graph/Dataset round trips through the plugin for random small graphs x presets x frame sizes x framing x stream classes, compared as sets with rdflib's own normalisation as expectation; proof: the shared encoder contracts (lookup, term level) that the rdflib encoder reuses"},
-    "C04": {"level": "other", "assumptions": COMMON + [BOUNDED_MAIN],
-            "explanation": "proof: reader lookup tables refine the spec tables for every id (LookupDecoder contracts, both directions), options_from_frame; bounded: reference-encoder streams with arbitrary legal producer choices through the parse entry points"},
-    "C06": {"level": "other", "assumptions": COMMON + [BOUNDED_MAIN],
-            "explanation": "proof: type-pair validation contracts; bounded: the whole configuration lattice (3 stream classes x 8 logical types x framing x flows x entry points) through real bytes, incl. rdflib plugin and malformed items"},
-    "C07": {"level": "other", "assumptions": COMMON + [BOUNDED_MAIN],
-            "explanation": "bounded: re-partitioning of real streams at sampled cut vectors with empty frames and metadata; grouped serialisation frame counts"},
-    "C09": {"level": "other", "assumptions": COMMON + [BOUNDED_MAIN, "A-IO: io.BufferedReader.peek may return fewer bytes than asked (documented)"],
-            "explanation": "bounded: every source kind and 11 short-read schedules; options-row length sweep; known finding D5 (short first read)"},
-    "C10": {"level": "other", "assumptions": COMMON + [BOUNDED_MAIN],
-            "explanation": "bounded: every cut offset of small delimited streams, both integrations"},
-    "C11": {"level": "other", "assumptions": COMMON + [BOUNDED_MAIN],
-            "explanation": "bounded: pull-counting input generators (pending rows at every pull, frames handed over before more input) and stalling byte sources after every frame boundary (all physical types)"},
-    "C12": {"level": "other", "assumptions": COMMON + [BOUNDED_MAIN, "threads: CPython memory safety, no hidden shared state inside protobuf/rdflib"],
-            "explanation": "bounded: alone vs interleaved (fresh/shared options) vs alternately advanced parsers vs threads vs hash seeds"},
-    "C14": {"level": "other", "assumptions": COMMON + [BOUNDED_MAIN, "rdflib NamespaceManager behaviour (stock bindings, renaming on clashes) is outside the contracts"],
-            "explanation": "proof: encode_iri contract (declared IRIs go through the same refinement as statement IRIs); bounded: bindings incl. empty prefix / separator-free / non-ASCII with evicting tables, both integrations, on/off comparison, re-serialisation"},
-    "C15": {"level": "other", "assumptions": COMMON + [BOUNDED_MAIN],
-            "explanation": "bounded: the six parse entry points on the same bytes; both flat serialisers byte for byte on corresponding inputs"},
-    "C16": {"level": "other", "assumptions": COMMON + [BOUNDED_MAIN],
-            "explanation": "proof: LookupDecoder contracts are exact (raise iff the spec step is invalid), options_from_frame raises iff pair invalid / name table < 8, table cap; bounded: one violation of every catalogued class at every applicable row, both integrations"},
-    "C17": {"level": "other", "assumptions": COMMON + [BOUNDED_MAIN, "the upb C parser and CPython itself are outside the contracts"],
-            "explanation": "proof: LookupDecoder.__init__ raises before allocating unless 0 <= size <= 4096; bounded: hostile byte strings in a watch-dogged child process"},
-    "C03": {"level": "proof", "assumptions": ENCODER + ["stream/flow/generator layer (options row first, frame flushing, graph bracketing) is covered by the bounded net, not yet by contracts"],
-            "explanation": "encoder refines the Jelly spec tables: every entry row is exactly a spec_assign that accounts for the table change, every id written resolves by the spec's delta rules to the intended string in the final tables of the statement (under C01's premise), entry rows precede the statement row, quoted triples are complete"},
-    "C19": {"level": "proof", "assumptions": ENCODER,
-            "explanation": "strongest-postcondition clauses: entry row iff miss, zero id iff the delta rule allows it, slot elided iff equal to the previous term; split at the last separator"},
-    "C01": {"level": "proof", "assumptions": ENCODER + ["decoder side and stream/flow layer: bounded net only in this check so far"],
-            "explanation": "statement-level lemma on the real encode_spo/encode_triple/encode_quad: under the premise that every enabled table has room for the statement, decoding the statement row by the spec rules in the final tables gives the input terms (LRU stability via ghost counters)"},
-    "C18": {"level": "proof", "assumptions": ENCODER,
-            "explanation": "the same statement-level obligations without the premise; on the complement they are known to fail today (known finding D7), anything else is reported"},
-    "C20": {"level": "proof", "assumptions": ENCODER,
-            "explanation": "exceptional postconditions: exact raise conditions per term kind, tables stay well-formed on raise; 'no trace on raise' is the known finding D6"},
-    "C08": {"level": "proof", "assumptions": COMMON + [A_PROTO],
-            "explanation": "the real body of delimited_jelly_hint is executed symbolically under the premise 'the three bytes start a stream laid out as delimited(varint(L) ++ frame) or as a single frame whose first row is the options row', for all L and row lengths; the obligation is hint == framing"},
-    "C13": {"level": "proof", "assumptions": COMMON + [A_PROTO, A_NOOPT],
-            "explanation": "per-function contracts on options.py, encode_options, options_from_frame (field-by-field identity, exact raise conditions from the spec's compatibility table) and the header_roundtrip lemma composing them"},
-    "C05": {"level": "proof", "assumptions": COMMON + [A_NOOPT],
-            "explanation": "inductive invariant over lookup histories: constructors establish, every writer/reader operation preserves the coupling with the Jelly spec table; mirror lemmas compose writer and reader contracts"},
+    "C01": {"level": "proof", "technique": TECH_P, "assumptions": ENCODER + [A_PROTO, A_ABS, A_TQ],
+            "explanation": "writer: every statement row, read by the spec's delta rules in the writer's final tables, denotes the input terms under the premise that every enabled table has room for the statement (encode_iri_indices ... encode_spo/encode_triple, LRU stability by ghost marks; both integrations' term encoders); reader: decode_iri/literal/statement/triple/quad and iter_rows compute exactly the spec decoding in the reader's tables; the tables are coupled for all histories (C05 lemmas) and the lemma statement_roundtrip composes writer postcondition and reader specification into 'read back == written' for flat triples; buffered rows keep their order into frames (list cases of triple/quad/to_stream_frame). Bounded only: nested quoted triples, the graph slot of quads end to end, byte-level entry points.",
+            "note": "Proved per function for all inputs under the listed library models; composition across entry rows of unknown number is by the rows_account fold (uninterpreted for opaque segments); quads' graph-slot denotation, nested quoted triples and entry points are bounded."},
+    "C02": {"level": "other", "technique": TECH_M, "assumptions": ENCODER + [A_PROTO, A_RDFLIB],
+            "explanation": "proof: RDFLibTermEncoder.encode_spo is verified against the same contract as the generic term encoder (terms denoted by the ids written, entry rows account for table changes), encode_graph against its rdflib-specific contract (default-graph id, URIRef, BNode), and the statement-level encoders encode_spo/encode_triple are re-verified with the rdflib encoder as receiver; bounded: rdflib Graph/Dataset round trips through the plugin (stores, namespace manager, parser adapters, rdflib's own literal normalisation as expectation).",
+            "note": "rdflib itself is modelled only at term level (A-RDFLIB); the parse-side adapters, stream_frames over Graph/Dataset and the plugin are bounded only."},
+    "C03": {"level": "proof", "technique": TECH_P, "assumptions": ENCODER + [A_PROTO, A_ABS],
+            "explanation": "writer refines the Jelly spec tables: each entry row is a valid spec assignment and the rows account exactly for the table changes, every id written lies within the table and resolves by the delta rules to the intended string (C01 premise), entry rows precede the statement row, quoted triples are complete; the options row is written exactly once, on first use, with the configured values (Stream.enroll) and the stream is enrolled before any statement (stream_frames invariants); graphs are bracketed (GraphStream.graph list cases); namespace rows arise only from Stream.namespace_declaration. Bounded: real bytes re-read by the independent wire codec + spec state machine.",
+            "note": "Library models A-OD, A-STR, A-PROTO assumed; nested quoted-triple denotation and row-kind vs physical-type at whole-stream level are bounded."},
+    "C04": {"level": "other", "technique": TECH_M, "assumptions": COMMON + [A_PROTO, A_DQ, A_ABS, A_TQ, A_NOOPT],
+            "explanation": "proof: for any row sequence the reader's tables are the spec tables (iter_rows invariant; per row: an entry row performs exactly the spec assignment, a triple row yields the spec decoding, exactly statement and namespace rows are yielded), decode_iri/literal/statement/triple/quad/graph_start/namespace_declaration compute the spec rules with exact raise conditions, Decoder.__init__ starts from empty spec tables of the declared sizes, parse_*_stream use one decoder per stream and the adapter of the physical type; bounded: quoted triples, rdflib adapters, byte-level entry points on reference-encoder streams with arbitrary legal producer choices.",
+            "note": "Mostly proved; decode_quoted_triple is a trusted opaque contract, rdflib adapters and entry points are bounded."},
+    "C05": {"level": "proof", "technique": TECH_P, "assumptions": COMMON + [A_OD, A_DQ, A_NOOPT],
+            "explanation": "inductive invariant over all lookup histories, all sizes and key alphabets: constructors establish and every Lookup/LookupEncoder/LookupDecoder operation preserves the coupling with the Jelly spec table; mirror lemmas compose writer and reader contracts (the reader resolves exactly the writer's key)",
+            "note": "LRU victim choice is left nondeterministic; integers mathematical."},
+    "C06": {"level": "other", "technique": TECH_M, "assumptions": COMMON + [A_PROTO, A_UL, A_ABS],
+            "explanation": "proof (generic integration): for every flow class and every input length, when triples/quads/graphs_stream_frames is exhausted nothing is left buffered (final flush), every frame taken out of a flow has been yielded (linear-resource obligations), statements' rows stay buffered in order until emitted; infer_flow/Stream.__init__ construct the specified flow and valid header types; type pairs validated with exact raise conditions. Bounded: the configuration lattice through real bytes incl. the rdflib plugin, *_to_file wrappers and sink.serialize.",
+            "note": "The rdflib stream_frames and the file wrappers are bounded only."},
+    "C07": {"level": "other", "technique": TECH_M, "assumptions": COMMON + [A_PROTO, A_ABS, A_CTX],
+            "explanation": "proof: iter_rows keeps no per-frame state (frame is only read; state lives in the decoder), parse_*_stream give exactly one lazy iterable per frame, all bound to one decoder, with that frame's metadata current; grouped flows emit only at graph/dataset end and bounded flows only on size; bounded: re-partitioning of real streams at sampled cut vectors, grouped sink counts, rdflib.",
+            "note": "The 'flat parse depends only on the row sequence' claim follows from the iter_rows contract (a frame is nothing but its rows) but the entry points that chain frames are bounded."},
+    "C08": {"level": "proof", "technique": TECH_P, "assumptions": COMMON + [A_PROTO],
+            "explanation": "the real body of delimited_jelly_hint is executed symbolically under the premise 'the three bytes start a stream laid out as delimited(varint(L) ++ frame) or as a single frame whose first row is the options row', for all L and row lengths; the obligation is hint == framing. get_options_and_frames then decides by that hint on the first three content bytes (C09).",
+            "note": "Wire facts (varint framing, tag 0x0A) are part of A-PROTO."},
+    "C09": {"level": "other", "technique": TECH_M, "assumptions": COMMON + [A_PROTO, A_IO],
+            "explanation": "proof: get_options_and_frames takes the framing decision on the first three bytes of the source's content for every seekable source and, for non-seekable ones, whenever BufferedReader.peek delivered three bytes; the remaining case (short peek) is the labelled known finding D5; frame_iterator hands out each frame before reading the next. Bounded: every source kind x short-read schedules on real bytes.",
+            "note": "The I/O layer is a trusted model (A-IO); independence from chunking *inside* the upb parser is bounded only."},
+    "C10": {"level": "other", "technique": TECH_M, "assumptions": COMMON + [A_PROTO, A_IO, A_ABS],
+            "explanation": "proof: iter_rows decodes and yields row by row without look-ahead, frame_iterator reads one frame at a time: whatever was yielded before a truncation point was decoded from complete rows by the spec rules; bounded: every cut offset of small delimited streams, both integrations.",
+            "note": "What the wire parser does with a truncated frame is outside the contracts (A-IO)."},
+    "C11": {"level": "other", "technique": TECH_M, "assumptions": COMMON + [A_PROTO, A_UL, A_ABS],
+            "explanation": "proof: after every statement a bounded flow holds fewer than frame_size rows (after_each clauses of the stream_frames loops, TripleStream.triple/QuadStream.quad/GraphStream.graph), a frame is yielded in the iteration that produced it, the requested frame_size reaches the flow; parser: one lazy iterable per frame, frames read one at a time. Bounded: pull-counting input generators and byte sources that stall after every frame boundary.",
+            "note": "Temporal interleaving is argued from generator semantics (yield suspends); the stalling-source experiment is bounded."},
+    "C12": {"level": "other", "technique": TECH_M, "assumptions": COMMON + ["threads: CPython memory safety, no hidden shared state inside protobuf/rdflib"],
+            "explanation": "proof: everything a stream or decoder mutates later is allocated per instance in __init__ (fresh-object clauses), the caller's options object is not written (frame), and no function under contract writes module- or class-level state (the engine rejects such writes); bounded: alone vs interleaved vs threads vs hash seeds.",
+            "note": "Concurrency and hash-seed independence are outside this technique; only allocation/frame facts are proved."},
+    "C13": {"level": "proof", "technique": TECH_P, "assumptions": COMMON + [A_PROTO, A_NOOPT],
+            "explanation": "per-function contracts on options.py, encode_options, options_from_frame (field-by-field identity, exact raise conditions from the spec's compatibility table), Stream.enroll/Stream.__init__ (header carries the configuration) and the header_roundtrip lemma composing them",
+            "note": ""},
+    "C14": {"level": "other", "technique": TECH_M, "assumptions": ENCODER + [A_PROTO, A_ABS, A_RDFLIB],
+            "explanation": "proof: encode_namespace_declaration writes the prefix label and IRI ids that denote the namespace IRI behind the entry rows they need, decode_namespace_declaration returns the same label and the IRI by the spec rules, the generic helper passes the IRI string of every binding in order, and with the option off no declaration goes through Stream.namespace_declaration (ghost counter over all three stream_frames); bounded: rdflib NamespaceManager, evicting tables end to end, on/off comparison of statements.",
+            "note": ""},
+    "C15": {"level": "other", "technique": TECH_M, "assumptions": ENCODER + [A_PROTO, A_RDFLIB],
+            "explanation": "proof: both integrations' term encoders satisfy the same encode_spo contract (corresponding terms are written identically), the reader core is shared; bounded: the six parse entry points on the same bytes, both flat serialisers byte for byte.",
+            "note": "rdflib adapters and entry points are bounded."},
+    "C16": {"level": "other", "technique": TECH_M, "assumptions": COMMON + [A_PROTO, A_DQ, A_TQ, A_NOOPT],
+            "explanation": "proof: raise conditions of every reader function are exact (raise iff the spec step is invalid), row kinds an adapter has no handler for are refused, a triple outside a graph is refused, options_from_frame raises iff pair invalid / name table < 8, table cap; bounded: one violation of every catalogued class at every applicable row on real bytes, both integrations.",
+            "note": ""},
+    "C17": {"level": "other", "technique": TECH_M, "assumptions": COMMON + [A_IO, "the upb C parser and CPython itself are outside the contracts"],
+            "explanation": "proof: LookupDecoder.__init__/Decoder.__init__ raise before allocating unless 0 <= size <= 4096; bounded: hostile byte strings in a watch-dogged child process.",
+            "note": "Termination and memory of the C parser are outside this technique."},
+    "C18": {"level": "proof", "technique": TECH_P, "assumptions": ENCODER + [A_PROTO],
+            "explanation": "the statement-level obligations of C01 without the room premise; on the complement they are known to fail today (known finding D7, matched by label), anything else is reported",
+            "note": ""},
+    "C19": {"level": "proof", "technique": TECH_P, "assumptions": ENCODER + [A_PROTO],
+            "explanation": "strongest-postcondition clauses: entry row iff miss, zero id iff the delta rule allows it, slot elided iff equal to the previous term, split at the last separator",
+            "note": ""},
+    "C20": {"level": "proof", "technique": TECH_P, "assumptions": ENCODER + [A_PROTO, A_UL],
+            "explanation": "exceptional postconditions: exact raise conditions per term kind, tables stay well-formed and buffered rows untouched on raise (list cases on raise); 'no trace on raise' is the known finding D6 (matched by label)",
+            "note": ""},
 }
